@@ -105,11 +105,29 @@ class Ctx:
 
     # ---------------------------------------------------------------- Coq side
     def gen_params(self):
-        rc, o, e = sh([sys.executable, os.path.join(VERIF, 'tools', 'gen_params.py'), REPO,
-                       os.path.join(COQ, 'Generated.v')], timeout=120)
+        """Regenerate coq/Generated.v from the working tree.  When a pattern no longer matches (the
+        source changed shape) the obligation is broken; so that the SEARCH for a concrete failing input
+        can still run, the models are then built from the last known-good source (commit recorded in
+        /verif/GOOD_COMMIT, taken from the repository's history) and compared with the working tree."""
+        gp = os.path.join(VERIF, 'tools', 'gen_params.py')
+        out = os.path.join(COQ, 'Generated.v')
+        rc, o, e = sh([sys.executable, gp, REPO, out], timeout=120)
         self.gen_status = o.strip().splitlines()
+        self.gen_broken = [l for l in self.gen_status if l.startswith('FAIL')]
         if rc != 0:
-            self.notes.append('gen_params: pattern failure: ' + (o + e)[-800:])
+            self.notes.append('gen_params: pattern failure: ' + '; '.join(self.gen_broken)[:800])
+            good = os.path.join(VERIF, 'GOOD_COMMIT')
+            if os.path.exists(good):
+                c = open(good).read().strip()
+                d = os.path.join(self.tmp, 'good_src')
+                os.makedirs(d, exist_ok=True)
+                p1 = subprocess.run('git -C %s archive %s src include | tar -x -C %s' % (REPO, c, d), shell=True,
+                                    stdout=subprocess.PIPE, stderr=subprocess.PIPE)
+                if p1.returncode == 0:
+                    rc2, o2, e2 = sh([sys.executable, gp, d, out], timeout=120)
+                    if rc2 == 0:
+                        self.gen_fallback = c
+                        self.notes.append('models built from the last known-good source %s to search for a failing input' % c[:10])
         return rc == 0
 
     def coq(self, propfile=None, timeout=3000):
@@ -166,6 +184,14 @@ class Ctx:
             return False
         self.cov['discharged'] = len(thms)
         self.proof_broken = None
+        if getattr(self, 'gen_broken', None):
+            # the theorems were re-checked against parameters of the last known-good source, not of the
+            # working tree: the tie is broken even though the files compile
+            used = [g.split()[1] for g in self.gen_broken if len(g.split()) > 1]
+            self.cov['discharged'] = 0
+            self.proof_broken = ('coq/Generated.v can no longer be regenerated from the working tree: pattern(s) %s '
+                                 'do not match the source any more (obligations re-checked only against the last known-good source)'
+                                 % ', '.join(used))
         # Print Assumptions parsing
         axioms = {}
         blocks = re.split(r'(?=Closed under the global context|Axioms:)', o)
@@ -211,7 +237,7 @@ class Ctx:
                 self.proof_broken = 'coqchk rejects %s: %s' % (mod, txt[-800:])
                 return False
             tb.append('coqchk (independent checker) accepted %s; its context summary (axioms of every loaded library): %s' % (mod, summary[:600]))
-        return True
+        return not self.proof_broken
 
     def build_driver(self, group, plain=False):
         """Extract_<group>.v has been compiled by make (it writes ocaml/gen/<group>.ml);
